@@ -135,10 +135,17 @@ def prop_resume_limit(case, rec):
     m, flags, j = case['model'], case['flags'], case['quit_at']
     root = _root()
     rsmodel.write_ruleset(os.path.join(root, 'Rules', 'T'), m)
-    a = guard(case, session.run_main, root, argv_for(flags), [(('guess', j), 'q')])
-    if not a.saved_on_quit or a.exhausted:
-        rec.skip('quit_not_noticed_before_the_end')
-        return
+    if case.get('first_run_limit'):
+        # history variant: the first run is not interrupted by 'q' but ends by its own --limit K; a later --load must not inherit K
+        a = guard(case, session.run_main, root, argv_for(flags) + ['-n', str(case['first_run_limit'])])
+        if not a.sav:
+            rec.skip('no_save_file_after_limited_run')
+            return
+    else:
+        a = guard(case, session.run_main, root, argv_for(flags), [(('guess', j), 'q')])
+        if not a.saved_on_quit or a.exhausted:
+            rec.skip('quit_not_noticed_before_the_end')
+            return
     keep = {}
     for ext in ('.sav', '.omn'):
         pth = os.path.join(root, 's' + ext)
@@ -156,6 +163,17 @@ def prop_resume_limit(case, rec):
 
     bu = guard(case, session.run_main, root, ['-r', 'T', '-s', 's', '--load'])
     total = len(bu.lines)
+    if case.get('first_run_limit'):
+        # the save file of a run that ended by its limit describes the start of the session: the unlimited resume is the whole stream
+        uu = guard(case, session.run_main, root, argv_for(flags) + ['-s', 'uu'])
+        if any(p_ > 1.0 for _, p_ in uu.pops):
+            # not a well-formed ruleset for this history: the generated base probabilities add up to more than 1, so that the
+            # skip_brute rescaling yields "probabilities" above 1.0, which the initial save position (1.0) excludes
+            rec.skip('probabilities_above_one_after_rescaling')
+            return
+        if bu.lines != uu.lines:
+            raise Violation('resume_after_limited_run', f'a run with -n {case["first_run_limit"]} followed by an unlimited --load writes {len(bu.lines)} lines, '
+                            f'the unlimited stream has {len(uu.lines)}', case)
     in_remainder = sum(1 for g in bu.guess_pop if g == 0)
     ns = case.get('ns') or sorted(set([1, 2, 3, in_remainder - 1, in_remainder, in_remainder + 1, total - 1, total, total + 1] + case.get('extra_ns', [])))
     for n in ns:
@@ -164,7 +182,7 @@ def prop_resume_limit(case, rec):
         restore()
         sub = dict(case, ns=[n])
         r = guard(sub, session.run_main, root, ['-r', 'T', '-s', 's', '--load', '-n', str(n)])
-        cls = ['resume_limit'] + (['resume_limit_inside_restored_markov_remainder'] if 0 < n < in_remainder else [])
+        cls = ['resume_limit'] + (['resume_limit_inside_restored_markov_remainder'] if 0 < n < in_remainder else []) + (['load_after_limited_run'] if case.get('first_run_limit') else [])
         rec.case({'quit_at': j, 'N': n, 'resumed_total': total, 'remainder': in_remainder}, total >= 2 and n < total, cls, key=[m, flags, j, n])
         if r.lines != bu.lines[:n]:
             raise Violation('limit_on_resume', f'quit after guess {j}, --load -n {n}: {len(r.lines)} lines written, expected {min(n, total)} = the first lines of the '
@@ -175,6 +193,8 @@ def prop_resume_limit(case, rec):
 def resume_limit_cases(draw):
     c = draw(cases(12))
     c['quit_at'] = draw(st.integers(1, 15))
+    if draw(st.integers(0, 3)) == 0:
+        c['first_run_limit'] = draw(st.integers(1, 6))
     return c
 
 
